@@ -518,8 +518,123 @@ fn history_ownable(cfg: &Cfg, rep: &mut Report, h: u64) {
     rep.end_history();
 }
 
+/// Many roles: the list of existing roles at and around its documented limit (`MAX_ROLES`). A role exists
+/// while it has a member; a grant that would create one more role than the limit is refused, a grant of a
+/// role that already exists is not; a role that lost its last member makes room again.
+fn history_many_roles(cfg: &Cfg, rep: &mut Report, h: u64) {
+    let max = stellar_access::access_control::MAX_ROLES as usize;
+    let mut rng = Rng::for_history(cfg.seed, "C06", cfg.shard, h);
+    rep.begin_history(h);
+    let w = World::new(100, 1);
+    let e = &w.env;
+    let n = 4;
+    let u = w.accounts(n);
+    let c = e.register(AcWrap, (u[0].clone(),));
+    rep.op("deploy AcWrap admin=0 (many roles)".into());
+    let name = |i: usize| Symbol::new(e, &format!("role_{i}"));
+    // model: role number -> members
+    let mut mm: BTreeMap<usize, BTreeSet<usize>> = BTreeMap::new();
+    // order in which roles came into existence (the documented list is append / swap-remove; only the set is compared)
+    let mut step = 0usize;
+    let observe = |rep: &mut Report, mm: &BTreeMap<usize, BTreeSet<usize>>, site: &str, rng: &mut Rng, upto: usize| {
+        let existing: SVec<Symbol> = invoke(e, &c, "get_existing_roles", args!(e)).must("get_existing_roles");
+        let mut got: Vec<usize> = existing.iter().map(|s| (0..upto + 1).find(|i| name(*i) == s).unwrap_or(usize::MAX)).collect();
+        let listed = got.len();
+        got.sort();
+        got.dedup();
+        let want: Vec<usize> = mm.iter().filter(|(_, s)| !s.is_empty()).map(|(r, _)| *r).collect();
+        rep.check("inv", got == want && listed == want.len(), &format!("C06/inv/many-roles/{site}/existing_roles"), || {
+            format!("get_existing_roles lists {listed} entries ({} distinct); the model has {} roles with members; missing {:?}, extra {:?}", got.len(), want.len(), want.iter().filter(|r| !got.contains(r)).collect::<Vec<_>>(), got.iter().filter(|r| !want.contains(r)).collect::<Vec<_>>())
+        });
+        // a sample of roles in full
+        for _ in 0..6 {
+            let r = rng.idx(upto + 1);
+            let set = mm.get(&r).cloned().unwrap_or_default();
+            let count: u32 = invoke(e, &c, "get_role_member_count", args!(e, name(r))).must("get_role_member_count");
+            rep.check("ref", count as usize == set.len(), &format!("C06/ref/many-roles/{site}/member_count"), || format!("role_{r}: count {count}, model {set:?}"));
+            for a in 0..n {
+                let hr: Option<u32> = invoke(e, &c, "has_role", args!(e, u[a], name(r))).must("has_role");
+                rep.check("ref", hr.is_some() == set.contains(&a), &format!("C06/ref/many-roles/{site}/has_role"), || format!("has_role({a}, role_{r}) = {hr:?}, model {set:?}"));
+            }
+        }
+        rep.evaluations += 1 + 6 * (1 + n as u64);
+    };
+    let mut next_new = 0usize;
+    while step < max + 120 {
+        step += 1;
+        let existing_now = mm.values().filter(|s| !s.is_empty()).count();
+        // fill quickly, then play at the limit
+        let k = if existing_now < max - 2 { rng.below(20) } else { rng.below(100) };
+        e.mock_all_auths();
+        if existing_now < max - 2 && k < 19 || k < 35 {
+            // grant a role that never existed (or, at the limit, one that was emptied before)
+            let r = if rng.chance(1, 6) && mm.values().any(|s| s.is_empty()) { *mm.iter().filter(|(_, s)| s.is_empty()).map(|(r, _)| r).next().unwrap() } else { next_new };
+            if r == next_new {
+                next_new += 1;
+            }
+            let a = rng.idx(n);
+            let got: Result<Val, Fail> = invoke(e, &c, "grant_role", args!(e, u[a], name(r), u[0]));
+            let want_ok = existing_now < max;
+            rep.evaluations += 1;
+            rep.op(format!("#{step} grant role_{r} (new) to {a} with {existing_now} roles existing -> {}", tag(&got)));
+            rep.case(format!("ac-many/grant-new/existing={}/{}", if existing_now == max { "at-limit" } else if existing_now + 1 == max { "one-below" } else { "below" }, tag(&got)));
+            rep.check("ref", got.is_ok() == want_ok, "C06/ref/many-roles/grant_role/outcome", || format!("grant of new role_{r} with {existing_now} of {max} roles existing: model expects ok={want_ok}, contract answered {got:?}"));
+            if got.is_ok() {
+                mm.entry(r).or_default().insert(a);
+                if existing_now + 1 == max {
+                    rep.count("role_list_filled");
+                }
+            } else if existing_now == max {
+                rep.count("role_beyond_limit_refused");
+            }
+        } else if k < 55 {
+            // a second member for a role that exists: never limited
+            let live: Vec<usize> = mm.iter().filter(|(_, s)| !s.is_empty()).map(|(r, _)| *r).collect();
+            if live.is_empty() {
+                continue;
+            }
+            let r = *rng.pick(&live);
+            let a = rng.idx(n);
+            let got: Result<Val, Fail> = invoke(e, &c, "grant_role", args!(e, u[a], name(r), u[0]));
+            rep.evaluations += 1;
+            rep.op(format!("#{step} grant role_{r} (existing) to {a} with {existing_now} roles existing -> {}", tag(&got)));
+            rep.case(format!("ac-many/grant-existing/at-limit={}/{}", existing_now == max, tag(&got)));
+            rep.check("ref", got.is_ok(), "C06/ref/many-roles/grant_role/outcome", || format!("grant of existing role_{r} to {a} with {existing_now} roles existing refused: {got:?}"));
+            if got.is_ok() {
+                mm.entry(r).or_default().insert(a);
+            }
+        } else {
+            // revoke / renounce a member, often the last one of its role
+            let live: Vec<usize> = mm.iter().filter(|(_, s)| !s.is_empty()).map(|(r, _)| *r).collect();
+            if live.is_empty() {
+                continue;
+            }
+            // first, last and random positions of the list
+            let r = match rng.below(4) {
+                0 => live[0],
+                1 => *live.last().unwrap(),
+                _ => *rng.pick(&live),
+            };
+            let a = *mm[&r].iter().nth(rng.idx(mm[&r].len())).unwrap();
+            let (f, got): (&str, Result<Val, Fail>) = if rng.chance(1, 3) { ("renounce_role", invoke(e, &c, "renounce_role", args!(e, name(r), u[a]))) } else { ("revoke_role", invoke(e, &c, "revoke_role", args!(e, u[a], name(r), u[0]))) };
+            rep.evaluations += 1;
+            rep.op(format!("#{step} {f} role_{r} of {a} -> {}", tag(&got)));
+            rep.case(format!("ac-many/{f}/last-member={}/{}", mm[&r].len() == 1, tag(&got)));
+            rep.check("ref", got.is_ok(), &format!("C06/ref/many-roles/{f}/outcome"), || format!("{f} of role_{r} held by {a} refused: {got:?}"));
+            if got.is_ok() {
+                mm.get_mut(&r).unwrap().remove(&a);
+            }
+        }
+        if step % 16 == 0 || mm.values().filter(|s| !s.is_empty()).count() >= max - 1 {
+            observe(rep, &mm, "step", &mut rng, next_new);
+        }
+    }
+    observe(rep, &mm, "end", &mut rng, next_new);
+    rep.end_history();
+}
+
 pub fn run(cfg: &Cfg, rep: &mut Report) {
-    rep.rule = "Seeded histories on (a) an AccessControl wrapper exposing the whole trait and one entry point per guard macro, 5 accounts x 4 roles with role-admin chains and cycles, (b) the nft-access-control example, (c) the ownable example; every call signed by the necessary principal alone (1/2) or a uniformly random subset of all accounts. Distinct case = (contract, entry point, caller kind {admin, role-admin by chain depth, member, stranger}, principal signed?, outcome).".into();
+    rep.rule = "Seeded histories on (a) an AccessControl wrapper exposing the whole trait and one entry point per guard macro, 5 accounts x 4 roles with role-admin chains and cycles, (b) the nft-access-control example, (c) the ownable example, (d) one wrapper driven to and around the documented limit of 256 existing roles (a 257th is refused, a further member of an existing role is not, an emptied role makes room); every call signed by the necessary principal alone (1/2) or a uniformly random subset of all accounts. Distinct case = (contract, entry point, caller kind {admin, role-admin by chain depth, member, stranger}, principal signed?, outcome).".into();
     let nh = cfg.pick(40u64, 900);
     let steps = cfg.pick(150usize, 300);
     for k in 0..nh {
@@ -533,6 +648,13 @@ pub fn run(cfg: &Cfg, rep: &mut Report) {
             history_ownable(cfg, rep, 20_000 + k);
         }
     }
+    for k in 0..cfg.pick(1u64, 12) {
+        if cfg.runs(30_000 + k) {
+            history_many_roles(cfg, rep, 30_000 + k);
+        }
+    }
+    rep.floor_on("role_list_filled", 1, &["role_list_filled"]);
+    rep.floor_on("role_beyond_limit_refused", 1, &["role_beyond_limit_refused"]);
     rep.floor_on("grants", 50, &["grant_role:ok"]);
     rep.floor_on("revokes", 20, &["revoke_role:ok"]);
 }
